@@ -36,7 +36,7 @@ func errFork(b *Base) func(x *Exec, call *ast.CallExpr, lhs []ast.Expr, s St) ([
 		}
 		if b.AutoInline != nil {
 			if f := Callee(x.Fn.Info, call); f != nil {
-				if fi := x.Fn.P.FuncOf(f); fi != nil && fi.Decl.Body != nil && b.AutoInline(fi) {
+				if fi := x.Fn.P.FuncOf(f); fi != nil && fi.Decl.Body != nil && b.autoInline(x, fi) {
 					return nil, false
 				}
 			}
